@@ -52,6 +52,11 @@ type Method struct {
 	ErrName  string   `json:"err_name,omitempty"`
 	// Trailing is a trailing comment on the method line.
 	Trailing string `json:"trailing,omitempty"`
+	// ErrSites lists the trace sites of error-capable callbacks reachable from this method;
+	// PreSite/PostSite are the sites of its hooks.
+	ErrSites []string `json:"err_sites,omitempty"`
+	PreSite  string   `json:"pre_site,omitempty"`
+	PostSite string   `json:"post_site,omitempty"`
 	// Probes records the generator's intention per destination path (features only).
 	Probes []Probe `json:"probes,omitempty"`
 }
